@@ -224,6 +224,9 @@ def lower_source(src, typed=None):
         if s.startswith("@cython.") or s.startswith("@cython"):
             continue
         line = numeric_casts(line)
+        # &(<casted expr>).data[i]  ->  pointer view
+        line = re.sub(r"&\(\s*(?:<[^>]+>)?\s*([^()]+?)\)\.data\[([^\]]+)\]",
+                      r"PtrView((\1).data, \2)", line)
         m = _RAISE2.match(line)
         if m:                       # py2 form:  raise E, msg
             line = "%sraise %s(%s)" % m.groups()
